@@ -23,10 +23,12 @@ impl<T: VecValue, SI: VecIndex> AggFold<Option<T>, SI, SI, T> for Sparse {
 
         (from..to).for_each(|idx| {
             let current_first = mapping[idx].to_usize();
+            // A first-index past the end of the source delimits a group that ends at the end.
             let next_first = mapping
                 .get(idx + 1)
                 .map(|h| h.to_usize())
-                .unwrap_or(source_len);
+                .unwrap_or(source_len)
+                .min(source_len);
 
             if next_first == 0 || current_first >= next_first {
                 slot_map.push(None);
@@ -55,7 +57,8 @@ impl<T: VecValue, SI: VecIndex> AggFold<Option<T>, SI, SI, T> for Sparse {
         let next_first = mapping
             .get(index + 1)
             .map(|h| h.to_usize())
-            .unwrap_or(source_len);
+            .unwrap_or(source_len)
+            .min(source_len);
 
         if next_first == 0 || current_first >= next_first {
             return Some(None);
